@@ -134,18 +134,22 @@ pub(crate) fn eval_expr(ctx: &Context, expr: &Expr) -> Result<Value, QueryError>
                         expr.show(ctx)
                     )))
                 } else {
-                    let expr = (&expr
-                        * &ctx
-                            .lookup(scale)
-                            .expect(&*format!("Missing {} unit", scale)))
-                        .unwrap();
-                    Ok(Value::Number(
-                        (&expr
-                            + &ctx
-                                .lookup(base)
-                                .expect(&*format!("Missing {} constant", base)))
-                            .unwrap(),
-                    ))
+                    // The database that was loaded may lack these units,
+                    // or define them as something else than temperatures.
+                    let scale = ctx
+                        .lookup(scale)
+                        .ok_or_else(|| QueryError::generic(format!("Missing {} unit", scale)))?;
+                    let base = ctx
+                        .lookup(base)
+                        .ok_or_else(|| QueryError::generic(format!("Missing {} constant", base)))?;
+                    let expr = (&expr * &scale).unwrap();
+                    (&expr + &base).map(Value::Number).ok_or_else(|| {
+                        QueryError::generic(format!(
+                            "<{}> and <{}> are not the same kind of quantity",
+                            scale.show(ctx),
+                            base.show(ctx)
+                        ))
+                    })
                 }
             }
         },
@@ -874,12 +878,12 @@ pub(crate) fn eval_query(ctx: &Context, expr: &Query) -> Result<QueryReply, Quer
                     };
                     (Some(def), None, None)
                 } else if let Some(dims) = find_quantity(ctx, &name) {
-                    let def = ctx
-                        .registry
-                        .definitions
-                        .get(&name)
-                        .expect("quantities should always have definitions");
-                    let description = format!("physical quantity for {def} ({dims})");
+                    // The loader leaves a quantity without a recorded
+                    // definition when recording it would make a cycle.
+                    let description = match ctx.registry.definitions.get(&name) {
+                        Some(def) => format!("physical quantity for {def} ({dims})"),
+                        None => format!("physical quantity ({dims})"),
+                    };
 
                     (Some(description), None, None)
                 } else {
@@ -1089,20 +1093,28 @@ pub(crate) fn eval_query(ctx: &Context, expr: &Query) -> Result<QueryReply, Quer
                     )))
                 }
             };
+            // The database that was loaded may lack these units, or
+            // define them as something else than temperatures.
             let bottom = ctx
                 .lookup(scale)
-                .expect(&*format!("Unit {} missing", scale));
+                .ok_or_else(|| QueryError::generic(format!("Unit {} missing", scale)))?;
+            let base = ctx
+                .lookup(base)
+                .ok_or_else(|| QueryError::generic(format!("Constant {} missing", base)))?;
             if top.unit != bottom.unit {
                 Err(QueryError::Conformance(Box::new(conformance_err(
                     ctx, top, &bottom,
                 ))))
             } else {
-                let res = (top
-                    - &ctx
-                        .lookup(base)
-                        .expect(&*format!("Constant {} missing", base)))
-                    .unwrap();
-                let res = (&res / &bottom).unwrap();
+                let not_a_scale = || {
+                    QueryError::generic(format!(
+                        "<{}> and <{}> do not define a temperature scale",
+                        base.show(ctx),
+                        bottom.show(ctx)
+                    ))
+                };
+                let res = (top - &base).ok_or_else(not_a_scale)?;
+                let res = (&res / &bottom).ok_or_else(not_a_scale)?;
                 let mut name = BTreeMap::new();
                 name.insert(deg.to_string(), 1);
                 Ok(QueryReply::Conversion(Box::new(ctx.show(
